@@ -27,6 +27,18 @@ Theorem C13_proof_or_documented_bypass :
 Proof. exact block_valid_strict. Qed.
 Print Assumptions C13_proof_or_documented_bypass.
 
+(** The quorum counts trusted oracles that attest, not attestations: it depends only on the
+    set of attesting keys (repeating one oracle's attestation cannot raise it), and it never
+    exceeds the number of trusted oracles. *)
+Theorem C13_quorum_counts_distinct_oracles :
+  forall (c : cfg) (p p' : proofinfo),
+    (forall k, In k (attesters p) <-> In k (attesters p')) ->
+    key_matches c p = key_matches c p' /\ key_matches c p <= N.of_nat (length (trusted c)).
+Proof.
+  intros c p p' H. split; [apply key_matches_set; exact H | apply key_matches_le_trusted].
+Qed.
+Print Assumptions C13_quorum_counts_distinct_oracles.
+
 (** A refused request leaves tip, height, remembered headers, watches and monitor states
     exactly as before ([view]); the whole state is the one before the request, minus the
     block stream that belonged to a refused streamed request. *)
@@ -95,6 +107,19 @@ Proof.
   - unfold correct_remove. vm_compute. repeat split; try congruence; try lia.
   - unfold correct_add. vm_compute. repeat split; try congruence; try lia. exists 12. reflexivity.
 Qed.
+
+(** one of three trusted oracles, its attestation repeated three times (plus an untrusted
+    oracle): refused on the way up and on the way down; two distinct trusted oracles pass *)
+Example C13_repeated_attestation_refused :
+  let rep := mkproof PFilter (Some 11) true true [1; 1; 1; 7] (Some [([], [], 2)]) in
+  let two := mkproof PFilter (Some 11) true true [3; 1] (Some [([], [], 2)]) in
+  key_matches cfg0 rep = 1 /\ required_majority cfg0 = 2 /\
+  step fixed cfg0 st0 (Add (hd 11) rep) = (st0, Err InvalidProof) /\
+  snd (step fixed cfg0 st0 (Add (hd 11) two)) = Ok /\
+  (let s1 := fst (step fixed cfg0 st0 (Add (hd 11) two)) in
+   step fixed cfg0 s1 (Remove (hd 10, 10) rep) = (s1, Err InvalidProof) /\
+   snd (step fixed cfg0 s1 (Remove (hd 10, 10) two)) = Ok).
+Proof. vm_compute. repeat split. Qed.
 
 (** the retarget window at an interval boundary: same bits and a halved target pass, an
     eighth does not, and nothing passes above the chain maximum *)
